@@ -107,7 +107,7 @@ ByteLo == 1
 ByteHi == 8       \* bytes -> BytesIO copy -> decoded str -> result copy
 
 \* caps of the reference design (any documented cap of this order makes the design bounded)
-RepeatCap == 1024          \* ODS: repeats beyond this are not materialised
+RepeatCap == 100           \* ODS: repeats beyond this are not materialised (100 x 100 slots per row element pair)
 SpaceCap  == 4096          \* ODF: text:c beyond this is not materialised
 EmptyRepeatCollapse == 100 \* as built: an EMPTY cell / row repeated more than this collapses to one
 
